@@ -197,3 +197,165 @@ def strategy_cutoff(m: int, n: int, init: int, mx: int, use_filter: bool, msg_ma
         h.check(n >= m or (use_filter and not msg_matches), "retry declined although attempts remain and the error is retryable")
         h.check(d.delay_seconds == 0)
     h.end()
+
+
+# ------------------------------------------------------------------------------------------------ delay kernel (direct z3 query from the AST)
+def _delay_queries(factory, inner_name, label):
+    """Translate `base_delay / delay_with_jitter / final_delay` of the packaged strategy `factory` (retries.create_retry_strategy or
+    waits.create_wait_strategy) and JitterStrategy.apply_jitter from their ASTs and compare with the reference formula."""
+    import ast
+    import z3
+    from vk import py2smt as P
+    from aws_durable_execution_sdk_python.config import JitterStrategy
+
+    outer = P.fn_ast(factory)
+    inner = [n for n in ast.walk(outer) if isinstance(n, ast.FunctionDef) and n.name == inner_name][0]
+    stmts = {s.targets[0].id if isinstance(s, ast.Assign) else s.target.id: s.value for s in inner.body
+             if isinstance(s, (ast.Assign, ast.AnnAssign)) and isinstance((s.targets[0] if isinstance(s, ast.Assign) else s.target), ast.Name)}
+    for need in ("base_delay", "delay_with_jitter", "final_delay"):
+        if need not in stmts:
+            raise P.Untranslatable(f"{label}: statement `{need} = ...` not found")
+    jit = P.fn_ast(JitterStrategy.apply_jitter)
+    match = [s for s in jit.body if isinstance(s, ast.Match)][0]
+
+    def jitter_body(mode):
+        """the return expression of the case selected for `mode`"""
+        for case in match.cases:
+            pat = case.pattern
+            if isinstance(pat, ast.MatchValue) and isinstance(pat.value, ast.Attribute) and pat.value.attr == mode:
+                return case.body[-1].value
+            if isinstance(pat, ast.MatchAs) and pat.pattern is None:
+                default = case.body[-1].value
+        return default
+
+    init, mx = z3.Ints("init mx")
+    r = z3.Real("r")
+    results = []
+    queries = 0
+    rates = [(1, "1"), (1.5, "3/2"), (2, "2"), (2.0, "2"), (3, "3")]
+    N = 10 if h.THOROUGH else 6
+    for mode in ("NONE", "FULL", "HALF"):
+        for rate, rate_q in rates:
+            for n in range(1, N + 1):
+                side = []
+
+                def intr(tr, node, mode=mode, rate_q=rate_q, n=n, side=side):
+                    if isinstance(node, ast.Attribute):
+                        if node.attr == "initial_delay_seconds":
+                            return ("int", init)
+                        if node.attr == "max_delay_seconds":
+                            return ("int", mx)
+                        if node.attr == "backoff_rate":
+                            return ("real", z3.RealVal(rate_q))
+                    if isinstance(node, ast.Name) and node.id == "attempts_made":
+                        return ("const", n)
+                    if isinstance(node, ast.BinOp) and isinstance(node.op, ast.Pow):
+                        base = tr.expr(node.left)
+                        ex = tr.expr(node.right)
+                        if ex[0] == "int":
+                            ex = ("const", z3.simplify(ex[1]).as_long())
+                        if not (ex[0] == "const" and isinstance(ex[1], int) and ex[1] >= 0):
+                            raise P.Untranslatable("exponent is not a concrete non-negative int")
+                        acc = z3.RealVal(1)
+                        for _ in range(ex[1]):
+                            acc = acc * P.to_real(base)
+                        return ("real", z3.simplify(acc))
+                    if isinstance(node, ast.Call) and isinstance(node.func, ast.Attribute):
+                        if node.func.attr == "random":
+                            return ("real", r)
+                        if node.func.attr == "ceil":
+                            x = P.to_real(tr.expr(node.args[0]))
+                            k = tr.fresh("ceil", z3.IntSort())
+                            side.append(z3.And(z3.ToReal(k) - 1 < x, x <= z3.ToReal(k)))
+                            return ("int", k)
+                        if node.func.attr == "apply_jitter":
+                            delay = tr.expr(node.args[0])
+                            sub = P.Tr({jit.args.args[1].arg: delay}, lambda t2, nd: intr(t2, nd), "real")
+                            sub.n = tr.n + 100
+                            out = sub.expr(jitter_body(mode))
+                            tr.n = sub.n
+                            return out
+                    return None
+
+                tr = P.Tr({}, intr, "real")
+                for name in ("base_delay", "delay_with_jitter", "final_delay"):
+                    tr.env[name] = tr.expr(stmts[name])
+                d = P.to_int(tr.env["final_delay"])
+                # reference: capped backoff, then jitter, then ceil, then at least 1
+                powr = z3.RealVal(1)
+                for _ in range(n - 1):
+                    powr = powr * z3.RealVal(rate_q)
+                raw = z3.ToReal(init) * powr
+                capped = z3.If(raw < z3.ToReal(mx), raw, z3.ToReal(mx))
+                jit_ref = {"NONE": capped, "FULL": r * capped, "HALF": capped / 2 + r * (capped / 2)}[mode]
+                kref = z3.Int("kref")
+                ref_side = z3.And(z3.ToReal(kref) - 1 < jit_ref, jit_ref <= z3.ToReal(kref))
+                dref = z3.If(kref > 1, kref, z3.IntVal(1))
+                s = z3.Solver()
+                s.set("timeout", 20000)
+                s.add(init >= 0, mx >= 0, r >= 0, r < 1, ref_side, *side)
+                s.add(z3.Or(d != dref, d < 1, d > z3.If(mx > 1, mx, z3.IntVal(1))))
+                res = str(s.check())
+                queries += 1
+                if res == "sat":
+                    m = s.model()
+                    vals = dict(init=m.eval(init, True).as_long(), mx=m.eval(mx, True).as_long(), r=str(m.eval(r, True)), mode=mode, rate=rate, n=n,
+                                code=m.eval(d, True).as_long(), reference=m.eval(dref, True).as_long())
+                    return queries, ("sat", vals)
+                if res != "unsat":
+                    return queries, ("unknown", dict(mode=mode, rate=rate, n=n))
+    return queries, ("unsat", None)
+
+
+def _replay_delay(factory_name, vals):
+    """run the real strategy with random.random patched to the model's r; returns (code delay, reference delay)"""
+    import math
+    import random
+    from fractions import Fraction
+    from unittest.mock import patch
+    from aws_durable_execution_sdk_python.config import Duration, JitterStrategy
+
+    rr = float(Fraction(vals["r"].replace("?", ""))) if "/" in vals["r"] or vals["r"].replace(".", "").isdigit() else float(vals["r"].replace("?", ""))
+    mode = JitterStrategy[vals["mode"]]
+    with patch.object(random, "random", lambda: rr):
+        if factory_name == "retry":
+            from aws_durable_execution_sdk_python.retries import RetryStrategyConfig, create_retry_strategy
+            st = create_retry_strategy(RetryStrategyConfig(max_attempts=vals["n"] + 5, initial_delay=Duration(vals["init"]), max_delay=Duration(vals["mx"]),
+                                                           backoff_rate=vals["rate"], jitter_strategy=mode))
+            got = st(ValueError("x"), vals["n"]).delay_seconds
+        else:
+            from aws_durable_execution_sdk_python.waits import WaitStrategyConfig, create_wait_strategy
+            st = create_wait_strategy(WaitStrategyConfig(should_continue_polling=lambda s: True, max_attempts=vals["n"] + 5, initial_delay=Duration(vals["init"]),
+                                                         max_delay=Duration(vals["mx"]), backoff_rate=vals["rate"], jitter_strategy=mode))
+            got = st(None, vals["n"]).delay_seconds
+    capped = min(vals["init"] * vals["rate"] ** (vals["n"] - 1), vals["mx"])
+    j = {"NONE": capped, "FULL": rr * capped, "HALF": capped / 2 + rr * (capped / 2)}[vals["mode"]]
+    return got, max(1, math.ceil(j))
+
+
+def _kernel_lemma(factory_name):
+    import aws_durable_execution_sdk_python.retries as RT
+    import aws_durable_execution_sdk_python.waits as WT
+
+    factory, inner = (RT.create_retry_strategy, "retry_strategy") if factory_name == "retry" else (WT.create_wait_strategy, "wait_strategy")
+    q, (res, vals) = _delay_queries(factory, inner, factory_name)
+    if res == "unsat":
+        return {"verdict": "CONFIRMED", "queries": q, "detail": f"unsat for 3 jitter modes x 5 rates x n: delay == max(1, ceil(jitter(min(init*rate^(n-1), max)))) and 1 <= delay <= max(1, max_delay)"}
+    if res == "unknown":
+        return {"verdict": "UNKNOWN", "queries": q, "detail": "solver timeout at " + str(vals)}
+    got, ref = _replay_delay(factory_name, vals)
+    return {"verdict": "REFUTED", "queries": q, "reproduced": got != ref, "call": f"delay_kernel_{factory_name}()  # {vals}",
+            "detail": f"{factory_name} strategy delay {got} differs from the configured backoff/jitter formula {ref} for {vals}"}
+
+
+@h.lemma(timeout=900, thorough_timeout=2400, kind="qz", funcs=["retries.create_retry_strategy.retry_strategy (delay expression)", "config.JitterStrategy.apply_jitter"],
+         bounds="initial/max delay any int >= 0, backoff rate in {1, 1.5, 2, 2.0, 3}, attempt n in 1..6 (10 thorough, exponent unrolled), jitter NONE/FULL/HALF with random() "
+                "an arbitrary real in [0,1); exact reals stand in for doubles; ceil as an integer k with k-1 < x <= k")
+def delay_kernel_retry():
+    return _kernel_lemma("retry")
+
+
+@h.lemma(timeout=900, thorough_timeout=2400, kind="qz", funcs=["waits.create_wait_strategy.wait_strategy (delay expression)", "config.JitterStrategy.apply_jitter"],
+         bounds="as delay_kernel_retry, for the packaged wait strategy")
+def delay_kernel_wait():
+    return _kernel_lemma("wait")
